@@ -899,6 +899,32 @@ pub fn exhaust(out: &mut dyn Write, group: &str, base: &Case, limit: usize) -> s
     Ok((n, complete))
 }
 
+/// workers with DIFFERENT chunk sizes in one run: `Min(c)`/`Auto` chunk on a source of known
+/// length, 6..12 threads, and a schedule in which the first four workers get well ahead before
+/// the spawner's first lag period ends, so that the workers spawned later are handed grown chunks
+pub fn gen_grown_case(rng: &mut Rng, terms: &[TermD], kinds_pool: &[&str], canary: bool) -> Case {
+    let kinds = *rng.pick(kinds_pool);
+    let ops: Vec<OpD> = kinds.chars().map(|k| gen_op(rng, k)).collect();
+    let term = rng.pick(terms).clone();
+    let len = rng.range(30, 160) as usize;
+    let input = gen_input(rng, len, true);
+    let nt = rng.range(6, 12) as usize;
+    let mut sets = vec![vec![]; ops.len() + 1];
+    sets[0] = vec![SetD::NtUsize(nt)];
+    match rng.below(4) {
+        0 => {}
+        1 => sets[0].push(SetD::CsEnum(ChunkSize::Auto)),
+        _ => sets[0].push(SetD::CsEnum(ChunkSize::Min(nz(rng.range(1, 3) as usize)))),
+    }
+    let src_kind = if canary { *rng.pick(&['V', 'K']) } else { *rng.pick(&['v', 'k']) };
+    let mut sch: Vec<u32> = vec![0, 0, 0, 0];
+    for _ in 0..rng.range(8, 70) {
+        sch.push(rng.range(1, 4) as u32);
+    }
+    sch.extend(gen_schedule(rng, len, nt as u32));
+    Case { src_kind, input, ops, sets, term, mode: Mode::Ctl(sch), panic_at: None }
+}
+
 pub fn gen_pred(rng: &mut Rng) -> PredD {
     let k = *rng.pick(&[1u64, 2, 3, 5, 7, 11, 50, 1000, 1_000_003]);
     PredD { k, r: rng.below(k.min(13)) }
@@ -1027,6 +1053,11 @@ pub fn run(out: &mut dyn Write, prop: &str, seed: u64, thorough: bool) -> std::i
                 emit_case(out, "large", &c, false)?;
                 total_c.set(total_c.get() + 1);
             }
+            for _ in 0..n(300, 3000) {
+                let c = gen_grown_case(&mut rng, &t, &["M", "F", "MF", "P", "PF", "X", "XF", "MX", "XM", "XX"], false);
+                emit_case(out, "grown-chunks", &c, false)?;
+                total_c.set(total_c.get() + 1);
+            }
         }
         "C02" => {
             let mut t = vec![TermD::First, TermD::FirstIdx];
@@ -1088,12 +1119,22 @@ pub fn run(out: &mut dyn Write, prop: &str, seed: u64, thorough: bool) -> std::i
                 emit_case(out, "large", &c, false)?;
                 total_c.set(total_c.get() + 1);
             }
+            for _ in 0..n(300, 3000) {
+                let c = gen_grown_case(&mut rng, &tl, &["M", "F", "MF", "P", "PF", "X", "XF", "XM"], false);
+                emit_case(out, "grown-chunks", &c, false)?;
+                total_c.set(total_c.get() + 1);
+            }
         }
         "C04" => {
             go(out, &mut rng, "count", &base(vec![TermD::Count, TermD::ForEach]), n(1500, 20000))?;
             for _ in 0..n(60, 600) {
                 let c = gen_large_case(&mut rng, &[TermD::Count, TermD::Count, TermD::ForEach], &["", "M", "F", "MF", "P", "PF", "X", "XF"], false);
                 emit_case(out, "large", &c, false)?;
+                total_c.set(total_c.get() + 1);
+            }
+            for _ in 0..n(300, 3000) {
+                let c = gen_grown_case(&mut rng, &[TermD::Count, TermD::Count, TermD::ForEach], &["M", "F", "MF", "P", "PF", "X", "XF"], false);
+                emit_case(out, "grown-chunks", &c, false)?;
                 total_c.set(total_c.get() + 1);
             }
         }
@@ -1104,6 +1145,11 @@ pub fn run(out: &mut dyn Write, prop: &str, seed: u64, thorough: bool) -> std::i
             for _ in 0..n(40, 400) {
                 let c = gen_large_case(&mut rng, &[TermD::CollectX], &["M", "F", "MF", "P", "PF", "X", "XF"], false);
                 emit_case(out, "large", &c, false)?;
+                total_c.set(total_c.get() + 1);
+            }
+            for _ in 0..n(200, 2000) {
+                let c = gen_grown_case(&mut rng, &[TermD::CollectX], &["M", "F", "MF", "P", "PF", "X", "XF"], false);
+                emit_case(out, "grown-chunks", &c, false)?;
                 total_c.set(total_c.get() + 1);
             }
         }
